@@ -206,8 +206,8 @@ fn show_tc(r: &Result<(NaiveTime, i64), ()>) -> String {
 fn gen_frac(c: &mut Ctx) -> u32 {
     match c.rng.below(4) {
         0 => *c.rng.pick(&FRAC_CLASSES),
-        1 => c.rng.below(1_000_000_000) as u32,
-        2 => 1_000_000_000 + c.rng.below(1_000_000_000) as u32,
+        1 => c.rng.nanos(),
+        2 => 1_000_000_000 + c.rng.nanos(),
         _ => *c.rng.pick(&[0u32, 1, 2, 499_999_999, 500_000_000, 999_999_998, 999_999_999, 1_000_000_000, 1_000_000_001, 1_999_999_998, 1_999_999_999]),
     }
 }
@@ -354,8 +354,8 @@ pub fn run(c: &mut Ctx) {
             vec![FRAC_CLASSES[a], FRAC_CLASSES[3 + b], FRAC_CLASSES[3 + (b + 1) % 3]]
         };
         if thorough {
-            fracs.push(c.rng.below(1_000_000_000) as u32);
-            fracs.push(1_000_000_000 + c.rng.below(1_000_000_000) as u32);
+            fracs.push(c.rng.nanos());
+            fracs.push(1_000_000_000 + c.rng.nanos());
         }
         for &frac in &fracs {
             let mut h = (1i128, 1i128);
@@ -384,7 +384,7 @@ pub fn run(c: &mut Ctx) {
         }
         // ---- accessors ---------------------------------------------------------------------------
         {
-            let frac = if secs % 60 == 59 && secs % 120 == 59 { 1_000_000_000 + c.rng.below(1_000_000_000) as u32 } else { gen_frac(c) };
+            let frac = if secs % 60 == 59 && secs % 120 == 59 { 1_000_000_000 + c.rng.nanos() } else { gen_frac(c) };
             let t = mk(secs, frac);
             let got = gs(
                 // NaiveDateTime does not override num_seconds_from_midnight: that call runs the trait default
@@ -582,7 +582,7 @@ pub fn run(c: &mut Ctx) {
                 1 => c.rng.next(),
                 _ => c.rng.below(200_000),
             };
-            let df = c.rng.below(1_000_000_000) as u32;
+            let df = c.rng.nanos();
             let dur = Duration::new(ds, df);
             c.op(&format!("tm.addstd {secs} {frac} {ds} {df}"), &gs(|| t + dur, |x| show_t(&x)));
             c.op(&format!("tm.substd {secs} {frac} {ds} {df}"), &gs(|| t - dur, |x| show_t(&x)));
